@@ -136,7 +136,7 @@ class Dispatch:
             return
         if isinstance(e, ast.Call):
             tgt = self.prog.resolve_expr_name(self.fn.module, e.func, self.fn)
-            if tgt == self.fn.qualname:
+            if tgt == self.fn.qualname or (tgt in self.prog.functions and self.prog.body_of(self.prog.functions[tgt]) is self.fn):
                 yield e, env
         for ch in ast.iter_child_nodes(e):
             if isinstance(ch, (ast.FunctionDef, ast.Lambda, ast.ClassDef)):
@@ -312,6 +312,29 @@ class Dispatch:
 
         r = block(self.fn.node.body, None)
         return r if r is not None else ("fallthrough", [], self.fn.node)
+
+    def enclosing_ifs(self, target: ast.AST) -> list[tuple[ast.If, bool]]:
+        """[(enclosing if statement, target lies in its body (True) / its else arm (False))], outermost first"""
+        def find(stmts, trail):
+            for st in stmts:
+                if st is target:
+                    return trail
+                if isinstance(st, ast.If):
+                    r = find(st.body, trail + [(st, True)])
+                    if r is None:
+                        r = find(st.orelse, trail + [(st, False)])
+                    if r is not None:
+                        return r
+                else:
+                    for f in ("body", "orelse", "finalbody"):
+                        sub = getattr(st, f, None)
+                        if isinstance(sub, list) and sub and isinstance(sub[0], ast.stmt):
+                            r = find(sub, trail)
+                            if r is not None:
+                                return r
+            return None
+
+        return find(self.fn.node.body, []) or []
 
     def static_isinstance_only(self, test: ast.AST) -> bool:
         """the test consists of isinstance checks on the two parameters only (so 'never selected' is meaningful)"""
@@ -498,7 +521,11 @@ def analyse(run: Run, prog: Program, fn: FunctionInfo, documented: list[tuple[st
                 fam_p, fam_q = _family(prog, P), _family(prog, Q)
                 if fam_p is fam_q:
                     continue
-                if d.cond(test, P, Q) != F:
+                outer = T
+                for enc, in_body in d.enclosing_ifs(st):
+                    c_ = d.cond(enc.test, P, Q)
+                    outer = _and(outer, c_ if in_body else _not(c_))
+                if outer != F and d.cond(test, P, Q) != F:
                     # only branches that return EARLIER in the text could have caught the pair
                     kind, _succ, dst = d.evaluate(P, Q)
                     if kind != "fallthrough" and getattr(dst, "lineno", 10 ** 9) < st.lineno:
